@@ -783,17 +783,17 @@ def run(ctx):
             # getAllBookMoves with illegal candidates (not reachable from the engine: ComputerPlayer calls it
             # only after getBookMove succeeded).  Abnormal termination is recorded as an observation.
             ill = [it for it in items if "fatal" not in it and "err" not in it["R"] and
-                   classify_probe(it["pos"], it["R"]) == "filtered_illegal_candidate"][:ctx.scale(300, 5000)]
+                   classify_probe(it["pos"], it["R"]) == "filtered_illegal_candidate"][:ctx.scale(80, 3000)]
             hs = []
             for i, it in enumerate(ill):
                 path = os.path.join(tmpdir, "all-%d.bin" % i)
                 with open(path, "wb") as f:
                     f.write(it["data"])
-                hs += ["FILE " + path, "FEN " + it["pos"]["fen"], "ALL ! 5"]
+                hs += ["FILE " + path, "FEN " + it["pos"]["fen"], "ALL ! 2"]
             if hs:
                 rc, hl, err = run_harness(cpp, "\n".join(hs) + "\n")
                 outs = hl[1::2]
-                abnormal = [(it["pos"]["fen"], o) for it, o in zip(ill, outs) if not o.startswith("A ")]
+                abnormal = [(it["pos"]["fen"], o, [m for m, _, _ in it["R"]["cands"]]) for it, o in zip(ill, outs) if not o.startswith("A ")]
                 ctx.count("getAllBookMoves_with_illegal_candidates_ok", len(outs) - len(abnormal))
                 ctx.count("getAllBookMoves_with_illegal_candidates_abnormal", len(abnormal))
                 if abnormal:
